@@ -504,6 +504,9 @@ type targetInfo struct {
 	// Runs counts the successful executions of a function target. It is part of the stamp seen by
 	// dependents, so that an execution in one build is visible to dependents built later.
 	Runs uint64 `json:"runs,omitempty"`
+	// Attrs is a digest of the lists the body of a function target sees through its self parameter,
+	// as of the target's last successful execution. Empty in records written by older versions.
+	Attrs string `json:"attrs,omitempty"`
 }
 
 // stamp returns the value that dependents record for the target.
